@@ -64,25 +64,33 @@ def swatches(rs, flat):
 
 
 def fit_event(darsia, rng, tid, cls_name):
+    """Exact recovery and monotonicity, for a fit from the neutral balance and for a second fit of the SAME object to another
+    exact map (the fit then starts from the first, non-commuting balance)."""
     rs = np.random.RandomState(rng.randrange(10 ** 6))
     flat = rng.random() < 0.5
     src = swatches(rs, flat)
-    if cls_name == "WhiteBalance":
-        A, b = np.diag(1 + 0.2 * (rs.rand(3) - 0.5)), np.zeros(3)
-    elif cls_name == "ColorBalance":
-        A, b = np.eye(3) + 0.1 * (rs.rand(3, 3) - 0.5), np.zeros(3)
-    else:
-        A, b = np.eye(3) + 0.1 * (rs.rand(3, 3) - 0.5), 0.05 * (rs.rand(3) - 0.5)
-    dst = src @ A + b
+
+    def exact_map(scale):
+        if cls_name == "WhiteBalance":
+            return np.diag(1 + 2 * scale * (rs.rand(3) - 0.5)), np.zeros(3)
+        if cls_name == "ColorBalance":
+            return np.eye(3) + scale * (rs.rand(3, 3) - 0.5), np.zeros(3)
+        return np.eye(3) + scale * (rs.rand(3, 3) - 0.5), 0.5 * scale * (rs.rand(3) - 0.5)
+
     bal = getattr(darsia, cls_name)()
-    before = float(np.sum((bal.apply_balance(src) - dst) ** 2))
-    with warnings.catch_warnings():
-        warnings.simplefilter("ignore")
-        bal.find_balance(src.reshape(-1, 3) if rng.random() < 0.3 else src, dst.reshape(-1, 3) if False else dst) if False else bal.find_balance(src, dst)
-    after_arr = bal.apply_balance(src)
-    after = float(np.sum((after_arr - dst) ** 2))
-    return {"tid": tid, "op": "fit", "cls": cls_name, "flat": int(flat), "resexp": exponent(float(np.abs(after_arr - dst).max())),
-            "monotone": int(after <= before * (1 + 1e-9) + 1e-15), "before6": int(round(1e6 * before)), "after6": int(round(1e6 * after))}
+    out = []
+    for start, scale in (("neutral", 0.1), ("fitted", 0.3)):
+        A, b = exact_map(scale)
+        dst = src @ A + b
+        before = float(np.sum((bal.apply_balance(src) - dst) ** 2))
+        with warnings.catch_warnings():
+            warnings.simplefilter("ignore")
+            bal.find_balance(src, dst)
+        after_arr = bal.apply_balance(src)
+        after = float(np.sum((after_arr - dst) ** 2))
+        out.append({"tid": f"{tid}:{start}", "op": "fit", "cls": cls_name, "start": start, "flat": int(flat), "resexp": exponent(float(np.abs(after_arr - dst).max())),
+                    "monotone": int(after <= before * (1 + 1e-9) + 1e-15), "before6": int(round(1e6 * before)), "after6": int(round(1e6 * after))})
+    return out
 
 
 def staged_fit_event(darsia, rng, tid, modes):
@@ -133,7 +141,7 @@ def run(ck, replay=None):
     for i, st in enumerate(sel):
         events.append(compose_event(darsia, rng, f"compose:{i}", st))
     for i in range(6 if quick else 60):
-        events.append(fit_event(darsia, rng, f"fit:{i}", ["WhiteBalance", "ColorBalance", "AffineBalance"][i % 3]))
+        events += fit_event(darsia, rng, f"fit:{i}", ["WhiteBalance", "ColorBalance", "AffineBalance"][i % 3])
     import itertools
     modes = ["diagonal", "linear", "affine"]
     staged = list(itertools.product(modes, repeat=2)) + (list(itertools.product(modes, repeat=3)) if not quick else rng.sample(list(itertools.product(modes, repeat=3)), 4))
@@ -145,7 +153,7 @@ def run(ck, replay=None):
         if e["op"] == "compose":
             sig = f"C12:{b['clause']}:compose:" + "+".join(s["mode"] for s in e["stages"])
         elif e["op"] == "fit":
-            sig = f"C12:{b['clause']}:fit:{e['cls']}"
+            sig = f"C12:{b['clause']}:fit:{e['cls']}:{e['start']}"
         else:
             sig = f"C12:{b['clause']}:staged_fit:" + "+".join(e["modes"])
         ck.violation(sig, f"{e['op']} violates {b['clause']}", {k: v for k, v in e.items() if k not in ("x", "res")})
